@@ -45,9 +45,12 @@ CONTAINERS = ["list", "list", "default", "tuple", "iter", "gen", "dictkeys"]
 
 
 def cases(tier, seed, focus=None):
-    n = 300 if tier == "quick" else 6000
+    n = 200 if tier == "quick" else 5000
+    n_list = 120 if tier == "quick" else 2500  # cases that edit WHICH parameters are listed (own random stream)
     rng = random.Random(3000 + seed)
-    for i in range(n):
+    for i in range(n + n_list):
+        if i == n:
+            rng = random.Random(30300 + seed)
         agg = AGGS[i % len(AGGS)]
         lo = 1
         if agg["name"] == "Krum":
@@ -58,21 +61,7 @@ def cases(tier, seed, focus=None):
             sp = "list"  # GradDrop draws one random number per COLUMN: the column order must be the oracle's
         if i % 10 == 0:  # regression family of finding F3: everything given as one-shot iterables
             tp, sp = rng.choice(["iter", "gen"]), rng.choice(["iter", "gen"])
-        # which parameters are listed: one third of the cases edits the lists (every mode of both axes is hit in
-        # the quick tier; an axis given by default cannot be edited)
-        smode, tmode = "all", "asis"
-        if i % 3 == 1:
-            smode = SHARED_MODES[(i // 3) % len(SHARED_MODES)]
-            tmode = rng.choice(TASKS_MODES)
-            if smode == "all" and tmode == "asis":
-                tmode = rng.choice(TASKS_MODES[1:])
-            if sp == "default" and smode != "all":
-                sp = rng.choice(["list", "tuple", "iter", "gen", "dictkeys"])
-            if tp == "default" and tmode != "asis" and not (smode == "empty" and rng.random() < 0.5):
-                tp = rng.choice(["list", "tuple", "iter", "gen", "dictkeys"])
-            if tp == "default":
-                tmode = "asis"
-        yield {
+        case = {
             "prog": {"seed": rng.randrange(10**9), "n_shared": rng.randint(1, 3), "n_features": rng.randint(1, 3),
                      "n_tasks": n_tasks, "dtype": rng.choice(["float64", "float64", "float32"]),
                      "overlap": rng.random() < 0.6, "empty_task": rng.random() < 0.6, "feat_shapes": "any",
@@ -83,8 +72,24 @@ def cases(tier, seed, focus=None):
             "pre": rng.choice(["none", "some", "all"]),
             "pre_seed": rng.randrange(10**6),
             "retain": rng.random() < 0.3,
-            "smode": smode, "tmode": tmode,
         }
+        if i >= n:
+            # which parameters are listed: every mode of both axes is hit in the quick tier, including 'everything
+            # empty' and 'explicitly empty shared list with defaulted tasks'; a defaulted axis cannot be edited
+            j = i - n
+            smode = SHARED_MODES[j % len(SHARED_MODES)]
+            tmode = TASKS_MODES[(j // len(SHARED_MODES)) % len(TASKS_MODES)]
+            if smode == "all" and tmode == "asis":
+                tmode = rng.choice(TASKS_MODES[1:])
+            explicit = ["list", "list", "tuple", "iter", "gen", "dictkeys"]
+            if sp == "default" and smode != "all":
+                sp = rng.choice(explicit)
+            if tp == "default" and tmode != "asis" and not (smode == "empty" and rng.random() < 0.5):
+                tp = rng.choice(explicit)
+            if tp == "default":
+                tmode = "asis"
+            case.update(tp=tp, sp=sp, smode=smode, tmode=tmode)
+        yield case
 
 
 def _call(case, prog, tp, sp):
